@@ -6870,6 +6870,23 @@ func (c *linkerContext) generateIsolatedHash(chunk *chunkInfo, channel chan []by
 		hashWriteLengthPrefixed(hash, []byte(c.options.PublicPath))
 	}
 
+	// The trailing source map comment and the trailing link to the legal
+	// comments file are appended to the chunk after this hash is computed.
+	// Whether they are present depends on these settings, so mix them into the
+	// hash to make sure the same path always means the same content.
+	switch c.options.SourceMap {
+	case config.SourceMapLinkedWithComment, config.SourceMapInline, config.SourceMapInlineAndExternal:
+		hashWriteUint32(hash, uint32(c.options.SourceMap))
+	}
+	if len(chunk.externalLegalComments) > 0 {
+		// The legal comments file is named after the chunk, so its content must
+		// take part in the hash as well (it's not part of the chunk's content)
+		hashWriteLengthPrefixed(hash, chunk.externalLegalComments)
+		if c.options.LegalComments == config.LegalCommentsLinkedWithComment {
+			hashWriteUint32(hash, uint32(c.options.LegalComments))
+		}
+	}
+
 	// Include the generated output content in the hash. This excludes the
 	// randomly-generated import paths (the unique keys) and only includes the
 	// data in the spans between them.
